@@ -123,11 +123,16 @@ func (o *orbitDBAccessController) CanAppend(entry logac.LogEntry, p identityprov
 		return fmt.Errorf("unable to get keys with admin access: %w", err)
 	}
 
+	identity := entry.GetIdentity()
+	if identity == nil {
+		return fmt.Errorf("entry has no identity")
+	}
+
 	access := append(writeAccess, adminAccess...)
 
 	for _, k := range access {
-		if k == entry.GetIdentity().ID || k == "*" {
-			return p.VerifyIdentity(entry.GetIdentity())
+		if k == identity.ID || k == "*" {
+			return p.VerifyIdentity(identity)
 		}
 	}
 
